@@ -112,7 +112,7 @@ PROPS = {
     ),
     "C10": dict(
         modules=VAL_MODS,
-        only_units=["reset_state", "parse_sequence", "parse_stream", "parse_info", "init_io"],
+        only_units=["reset_state", "parse_sequence", "parse_stream", "parse_info", "init_io", "is_end_of_stream", "read_byte"],
         level="proof",
         assumptions=[
             "reset_state is verified to remove every State entry except the five that the property allows to carry over (I/O position, file, recording buffer, output callback) - "
@@ -133,7 +133,7 @@ PROPS = {
     ),
     "C01": dict(
         modules=VAL_MODS,
-        only_units=["parse_info", "assert_picture_number_incremented_as_expected", "assert_major_version_is_minimal", "fragment_header", "fragment_data",
+        only_units=["read_byte", "parse_info", "assert_picture_number_incremented_as_expected", "assert_major_version_is_minimal", "fragment_header", "fragment_data",
                     "fragment_parse", "parse_sequence", "picture_header", "assert_parse_code_in_sequence", "record_bitstream_start", "record_bitstream_finish",
                     "sequence_header"],
         level="proof",
@@ -347,7 +347,7 @@ PROPS = {
 
 # Properties registered in MANIFEST.json (tools/mkmanifest.py).  A bounded module under development contributes to PROPS (so
 # `./verif check <pid>` can be run on it) but is not claimed until its id is listed here.
-CLAIMED = ["C01", "C02", "C04", "C06", "C07", "C08", "C09", "C10", "C11", "C12", "C13", "C14", "C17", "C18", "C19", "C20", "C21", "C23", "C25", "C27", "C28"]
+CLAIMED = ["C01", "C02", "C03", "C04", "C06", "C07", "C08", "C09", "C10", "C11", "C12", "C13", "C14", "C15", "C17", "C18", "C19", "C20", "C21", "C22", "C23", "C25", "C26", "C27", "C28"]
 
 BROKEN = {}  # pid -> import error of a bounded module that (by its file name cNN_...) serves that property
 
